@@ -463,7 +463,48 @@ fn cyclic_inputs(rep: &Report, thorough: bool) -> Value {
             rep.violation("deep directory chain: operation did not finish", &format!("depth {}", d), || json!({"depth": d}));
         }
     }
-    json!({"import_digraphs": import_graphs, "modules": n, "dependency_digraphs": dgraphs.len(), "names": m, "directory_chain_depths_sweep": depths})
+    // import lattices: L layers of two modules, each star-importing both modules of the next layer; the last
+    // layer imports the conftest again (a cycle through the whole lattice). The number of import PATHS doubles
+    // with every layer; the walk has to terminate in time that does not (a sweep over L with a deadline)
+    let layers: Vec<usize> = if thorough { vec![4, 8, 12, 16, 20, 24, 28] } else { vec![4, 8, 12, 16, 20, 24] };
+    let mut lattice_ms: Vec<(usize, u128)> = Vec::new();
+    for l in &layers {
+        let ll = *l;
+        let t0 = std::time::Instant::now();
+        let done = with_watchdog(30, move || {
+            let db = FixtureDatabase::new();
+            let p = |n: String| PathBuf::from(format!("{}/{}", ROOT, n));
+            for k in 0..ll {
+                for side in ["a", "b"] {
+                    let text = if k + 1 < ll {
+                        format!("import pytest\nfrom a{} import *\nfrom b{} import *\n\n@pytest.fixture\ndef {}{}_fx():\n    return 1\n", k + 1, k + 1, side, k)
+                    } else {
+                        format!("import pytest\nfrom conftest import *\n\n@pytest.fixture\ndef {}{}_fx():\n    return 1\n", side, k)
+                    };
+                    db.analyze_file(p(format!("{}{}.py", side, k)), &text);
+                }
+            }
+            db.analyze_file(p("conftest.py".into()), "from a0 import *\nfrom b0 import *\n");
+            let t = p("test_l.py".into());
+            db.analyze_file(t.clone(), &format!("def test_l(a{}_fx):\n    pass\n", ll - 1));
+            let n = db.get_available_fixtures(&t).len();
+            let d = db.find_fixture_definition(&t, 0, 11).is_some();
+            (n, d)
+        });
+        let ms = t0.elapsed().as_millis();
+        lattice_ms.push((ll, ms));
+        match done {
+            Some((n, d)) if n == 2 * ll && d => {}
+            Some((n, d)) => {
+                rep.violation("import lattice: wrong answer", &format!("{} layers: {} fixtures available (expected {}), deepest fixture resolves: {}", ll, n, 2 * ll, d), || json!({"layers": ll}));
+            }
+            None => {
+                rep.violation("import lattice with a cycle back to the conftest: the walk did not finish within 30 s", &format!("{} layers (2 modules each); times so far (layers, ms): {:?}", ll, lattice_ms), || json!({"layers": ll, "times_ms": lattice_ms}));
+                break;
+            }
+        }
+    }
+    json!({"import_digraphs": import_graphs, "modules": n, "dependency_digraphs": dgraphs.len(), "names": m, "directory_chain_depths_sweep": depths, "import_lattice_layers_and_ms": lattice_ms})
 }
 
 pub fn run(rep: &'static Report) {
